@@ -15,7 +15,7 @@ def SelfSrc (cfg : Cfg) (s : State) (a : Action) (b : Sid) (x : TT) : Prop :=
 /-- the delayed output time of an output of `q`'s step `c` delivered to a trigger connection `q → b` -/
 def TrigSrc (cfg : Cfg) (s : State) (a : Action) (b : Sid) (x : TT) : Prop :=
   ∃ (q : Sid) (c : TT) (tr : Port × Sid × TI) (data : OutData) (outT : TT),
-    (s.sims q).cur = some c ∧ tr ∈ (cfg.sim q).triggers ∧ tr.2.1 = b ∧ OutData.has data tr.1 = true ∧
+    q < cfg.n ∧ (s.sims q).cur = some c ∧ tr ∈ (cfg.sim q).triggers ∧ tr.2.1 = b ∧ OutData.has data tr.1 = true ∧
     x = TI.act outT tr.2.2 ∧
     ((∃ d, a = .dataReply q d ∧ data = d.data ∧ outT = (outTimeOf c d).2 ∧ ¬ (TT.time c : Int) > (outTimeOf c d).1) ∨
      (∃ r, a = .stepReply q r ∧ (cfg.sim q).outReq.isEmpty = true ∧ data = (s.sims q).data ∧ outT = (s.sims q).outTime))
@@ -270,7 +270,10 @@ theorem step_sources {cfg : Cfg} {s s' : State} {a : Action} (h : step cfg s a =
   | stepReply p r =>
     simp only [step, stepStepReply] at h
     split at h
-    · cases hcur : (s.sims p).cur with
+    · rename_i hlive
+      have hpn : p < cfg.n := by
+        simp only [live, Bool.and_eq_true, decide_eq_true_eq] at hlive; exact hlive.1.2
+      cases hcur : (s.sims p).cur with
       | none => simp [hcur] at h
       | some c =>
         simp only [hcur, Option.some.injEq] at h
@@ -296,7 +299,7 @@ theorem step_sources {cfg : Cfg} {s s' : State} {a : Action} (h : step cfg s a =
               · exact Or.inr (Or.inl ⟨n, c, by rw [hr], hcur, h1, h2, h4⟩)
           · right; right; left
             rw [hd] at hhas; rw [ho] at hxe
-            exact ⟨p, c, tr, (s.sims p).data, (s.sims p).outTime, hcur, htr, hb, hhas, hxe,
+            exact ⟨p, c, tr, (s.sims p).data, (s.sims p).outTime, hpn, hcur, htr, hb, hhas, hxe,
               Or.inr ⟨r, rfl, hempty, rfl, rfl⟩⟩
         unfold processStepReply at hx
         simp only at hx
@@ -341,7 +344,10 @@ theorem step_sources {cfg : Cfg} {s s' : State} {a : Action} (h : step cfg s a =
   | dataReply p d =>
     simp only [step, stepDataReply] at h
     split at h
-    · cases hcur : (s.sims p).cur with
+    · rename_i hlive
+      have hpn : p < cfg.n := by
+        simp only [live, Bool.and_eq_true, decide_eq_true_eq] at hlive; exact hlive.1.2
+      cases hcur : (s.sims p).cur with
       | none => simp [hcur] at h
       | some c =>
         simp only [hcur, Option.some.injEq] at h
@@ -362,7 +368,7 @@ theorem step_sources {cfg : Cfg} {s s' : State} {a : Action} (h : step cfg s a =
                 (.got p c (outTimeOf c d).2 d.data)) p (outTimeOf c d).1 d).sims p).outTime = (outTimeOf c d).2 := by
               rw [(storeOutputs_ctrlEq cfg _ p _ d).2.2]; simp
             rw [hoT] at hxe
-            exact ⟨p, c, tr, d.data, (outTimeOf c d).2, hcur, htr, hb, hhas, hxe, Or.inl ⟨d, rfl, rfl, rfl, hot⟩⟩
+            exact ⟨p, c, tr, d.data, (outTimeOf c d).2, hpn, hcur, htr, hb, hhas, hxe, Or.inl ⟨d, rfl, rfl, rfl, hot⟩⟩
     · cases h
   | tick n =>
     left
